@@ -215,11 +215,14 @@ def to_case(ob):
     the replay searches start bins / lengths for that size on the real _compute_frame"""
     from pyvc.solve import model_int
     D = model_int(ob.model, "D")
-    if D is None or D < 1 or D > 4096:
-        return None
     L = model_int(ob.model, "L")
     cases = []
-    for d, l in ((D, L), (D, D), (D, max(1, D - 1)), (D + 1, D), (8, 5), (8, 8), (9, 9), (12, 7)):
+    if D is None or D < 1 or D > 4096:
+        # no usable model (the DFT size does not occur in the query, or the obligation is undecided): the standard sizes only
+        pairs = ((8, 5), (8, 8), (9, 9), (12, 7), (2, 2), (3, 3), (4, 3), (16, 16), (7, 4))
+    else:
+        pairs = ((D, L), (D, D), (D, max(1, D - 1)), (D + 1, D), (8, 5), (8, 8), (9, 9), (12, 7))
+    for d, l in pairs:
         cases.append({"kind": "frame_walk", "D": d, "L": l if l and l <= d else d, "real": False, "power": bool(model_int(ob.model, "self._power", False)),
                       "log": False, "energy": True})
     return cases
